@@ -222,6 +222,8 @@ def run(ck):
             ck.violation("odd:" + a, "approximation %s is not odd: f(%g) = %.12g, f(%g) = %.12g on the real code"
                          % (a, b["y"], b["real_code_double"]["f(y)"], -b["y"], b["real_code_double"]["f(-y)"]), b, True)
     for n, b in bad_unit.items():
+        if n.split("_")[0] in bad_odd and n.split("_")[2] in ("neg", "loneg", "hineg"):
+            continue   # same root cause as the oddness violation of this approximation (the reference is the odd extension)
         if n not in explained:
             ck.violation("unit:" + n, "traced unit %s differs from the reference formula (%s) although no theorem "
                          "about it broke" % (n, b["output"]), b, True)
